@@ -161,6 +161,10 @@ def decide(G, pid, res, tier, seed, t_start, write_evidence=True):
             continue
         seen.add(k)
         violations.append((case, inv, line, desc, events))
+    if G.get("drift_report"):
+        msg = G["drift_report"](res)
+        if msg:
+            print(f"MODEL-DRIFT property={pid} {msg} (Level A intact unless a VIOLATION line follows)")
     for fid, (f, n) in sorted(known_hits.items()):
         print(f"KNOWN-FINDING: property={pid} {fid} {f['what']} [{n} recorded failures]")
     shown = 0
